@@ -131,7 +131,9 @@ def dd_model_conformance(chk, w, tier, module="DD", cfg="MC_DD_emit.cfg", insts_
     real = json.load(open(fo))
     match, miss = 0, []
     for k, o in zip(keys, real):
-        o2 = json.dumps({"exact": o["exact"], "bv": o["bv"], "bev": o["bev"], "cs": sorted([{"x": c["x"], "depth": c["depth"], "value": c["value"], "ub": c["ub"]} for c in o["cs"]], key=lambda c: json.dumps(c, sort_keys=True)),
+        # (the model's cut-set is a SET of projected sub-problems: two real sub-problems that differ by their path only count once)
+        proj = {json.dumps({"x": c["x"], "depth": c["depth"], "value": c["value"], "ub": c["ub"]}, sort_keys=True) for c in o["cs"]}
+        o2 = json.dumps({"exact": o["exact"], "bv": o["bv"], "bev": o["bev"], "cs": sorted([json.loads(x) for x in proj], key=lambda c: json.dumps(c, sort_keys=True)),
                          "cu": sorted(o["cu"], key=lambda c: json.dumps(c, sort_keys=True))}, sort_keys=True)
         if o2 in by[k]:
             match += 1
